@@ -741,3 +741,55 @@ Example C05_transparent_values_nonvacuous :
              Verif.ATP.SystemVal.vsys_res vs 2%nat = Some (Verif.ATP.Client.RErr Verif.ATP.Client.ErrStep) /\
              Verif.ATP.Client.closer (Verif.ATP.SystemVal.vcl vs) = Verif.ATP.Client.KDone Verif.ATP.Client.CloseOk.
 Proof. exact Verif.Proofs.C05ImageEx.exv_values. Qed.
+
+(* ====================================================================================================
+   "never ... corrupted by interleaved writes": the writers of the ONE encoder of a direction, over a transport
+   whose Write is NOT atomic (ATP/Wire.v).  The protocol models above append a whole message per send; that
+   rests on the lock discipline of the code - atp/client.go sendCBOR (c.mutex around every Encode: work starts,
+   signals of every executeWriteLoop goroutine, client-done), atp/server.go sendRuntimeMessage (encoderMutex).
+   Wire.v: any number of writer goroutines, each looping  Lock; Write = first piece, further pieces ..., return;
+   Unlock  - any number of messages and of pieces per message, every schedule (= every label list).
+   C05_wire_framed: if every writer takes the lock, the stream is FRAMED in every reachable state - its events are
+   well bracketed: between the first and the last piece of a message there are only pieces of that message - i.e. the
+   peer's decoder reads exactly the messages sent, one after the other (the atomic append of ATP/Client.v,
+   ATP/Server.v, ATP/System.v).  C05_wire_one_writer: a writer is inside a message only while it holds the lock.
+   C05_wire_unlocked_refuted: ONE writer that uses the encoder without the lock (a signal written with
+   c.encoder.Encode instead of c.sendCBOR; an error report written with cborStdout.Encode) and a 9-step schedule:
+   the stream is [begin 0; piece 0; begin 1; piece 1; piece 0; end 0; end 1].
+   TIE (engine c05sched, harness/cmd/atpdrive): sessions with signal traffic to running steps while other calls
+   start, over a transport that takes every Write in pieces with a scheduler gate between two pieces; the driver
+   reports (a) two writers inside Write at once / a message the peer decodes that nobody sent / undecodable residue
+   - a violation with the schedule as replay - and (b) every Encode or piece that a goroutine performs while its own
+   gate trace says it does not hold c.mutex (the discipline this theorem assumes) - a broken correspondence. *)
+From Verif Require ATP.Wire Proofs.C05Wire.
+
+Theorem C05_wire_framed : forall (locked : nat -> bool), (forall w, locked w = true) ->
+  forall (ls : list Verif.ATP.Wire.wlabel), Verif.ATP.Wire.framed (Verif.ATP.Wire.stream (Verif.ATP.Wire.wrun locked ls)).
+Proof. exact Verif.Proofs.C05Wire.wire_framed. Qed.
+Print Assumptions C05_wire_framed.
+
+Theorem C05_wire_one_writer : forall (locked : nat -> bool), (forall w, locked w = true) ->
+  forall (ls : list Verif.ATP.Wire.wlabel) (w : nat),
+  Verif.ATP.Wire.wb None (Verif.ATP.Wire.stream (Verif.ATP.Wire.wrun locked ls)) = Some (Some w) ->
+  Verif.ATP.Wire.mutex (Verif.ATP.Wire.wrun locked ls) = Some w /\
+  Verif.ATP.Wire.pcs (Verif.ATP.Wire.wrun locked ls) w = Verif.ATP.Wire.PWriting.
+Proof. exact Verif.Proofs.C05Wire.wire_one_writer. Qed.
+Print Assumptions C05_wire_one_writer.
+
+Theorem C05_wire_unlocked_refuted :
+  Verif.ATP.Wire.framedb (Verif.ATP.Wire.stream (Verif.ATP.Wire.wrun Verif.Proofs.C05Wire.unlocked1 Verif.Proofs.C05Wire.interleaving_schedule)) = false /\
+  Verif.ATP.Wire.stream (Verif.ATP.Wire.wrun Verif.Proofs.C05Wire.unlocked1 Verif.Proofs.C05Wire.interleaving_schedule)
+  = [Verif.ATP.Wire.WBegin 0; Verif.ATP.Wire.WPiece 0; Verif.ATP.Wire.WBegin 1; Verif.ATP.Wire.WPiece 1;
+     Verif.ATP.Wire.WPiece 0; Verif.ATP.Wire.WEnd 0; Verif.ATP.Wire.WEnd 1].
+Proof. exact Verif.Proofs.C05Wire.wire_unlocked_refuted. Qed.
+Print Assumptions C05_wire_unlocked_refuted.
+
+(* non-vacuity: three writers, two messages of writer 0, messages of 0, 1 and 2 further pieces, writers that find the
+   lock taken (their LLock / LBegin labels are skipped): the stream is the five whole messages *)
+Example C05_wire_nonvacuous :
+  Verif.ATP.Wire.stream (Verif.ATP.Wire.wrun Verif.Proofs.C05Wire.all_locked_cfg Verif.Proofs.C05Wire.example_schedule)
+  = [Verif.ATP.Wire.WBegin 0; Verif.ATP.Wire.WPiece 0; Verif.ATP.Wire.WPiece 0; Verif.ATP.Wire.WEnd 0;
+     Verif.ATP.Wire.WBegin 2; Verif.ATP.Wire.WEnd 2; Verif.ATP.Wire.WBegin 1; Verif.ATP.Wire.WPiece 1; Verif.ATP.Wire.WEnd 1;
+     Verif.ATP.Wire.WBegin 0; Verif.ATP.Wire.WEnd 0]
+  /\ Verif.ATP.Wire.framedb (Verif.ATP.Wire.stream (Verif.ATP.Wire.wrun Verif.Proofs.C05Wire.all_locked_cfg Verif.Proofs.C05Wire.example_schedule)) = true.
+Proof. exact Verif.Proofs.C05Wire.wire_example. Qed.
